@@ -1016,6 +1016,13 @@ impl<'env> Executor<'env> {
             state.blocks.get_mut(name).unwrap().pop();
             return Err(err);
         }
+        // every layer of an inheritance chain can call super(): the parent
+        // blocks nest like block calls and are as expensive.
+        if let Err(err) = state.ctx.incr_depth(BLOCK_RECURSION_COST) {
+            state.ctx.pop_frame();
+            state.blocks.get_mut(name).unwrap().pop();
+            return Err(err);
+        }
         if capture {
             out.begin_capture(CaptureMode::Capture);
         }
@@ -1030,6 +1037,7 @@ impl<'env> Executor<'env> {
             BlockState::Keep,
             |state| Self::eval_state(state, out),
         );
+        state.ctx.decr_depth(BLOCK_RECURSION_COST);
         state.ctx.pop_frame();
         state.blocks.get_mut(name).unwrap().pop();
 
